@@ -402,9 +402,15 @@ def run_case(case, world):
             eb = engine_bits(o)
             if eb != m:
                 diff = eb ^ m
-                violate('SET_MISMATCH', 'set-mismatch:%s%s' % (opname, '' if i in touched else ':untouched-object'),
-                        'after %s object %d (%s) is %s, model %s; differs on %s' % (
-                            opname, i, kind, describe(eb), describe(m), describe(diff)), feats)
+                if i in touched:
+                    violate('SET_MISMATCH', 'set-mismatch:%s' % opname,
+                            'after %s object %d (%s) is %s, model %s; differs on %s' % (
+                                opname, i, kind, describe(eb), describe(m), describe(diff)), feats)
+                else:
+                    # an object that was neither the target nor the result of the operation changed: aliasing
+                    violate('ALIASING', 'untouched-object-changed:%s' % opname,
+                            '%s changed object %d (%s), which it does not involve, from %s to %s' % (
+                                opname, i, kind, describe(m), describe(eb)), feats)
                 models[i] = (kind, eb)
                 m = eb
             # membership through the public API on boundaries and a sample
